@@ -1,31 +1,1094 @@
-//! C11 — placeholder (not registered in MANIFEST until built).
+//! C11 — the log rejects corruption instead of reinterpreting it.
+//!
+//! Sim: a log (segment + writer-epoch ledger + optionally a published manifest) is produced by a
+//! crash-free C10 workload (1–12 transactions) together with the observables of the crash-free
+//! twin after every transaction; a donor log is produced from a second workload. Each damage
+//! plan is applied to a fresh copy: bit flips, aligned zeroing, truncation + garbage, in-record
+//! payload flips with (L2) and without (L1) a recomputed outer record digest, and — with the
+//! harness's own record parser — delete / duplicate / adjacent swap of records and whole
+//! transactions, cross-log transplants of records / transactions, ledger / manifest flips and
+//! cross-log substitution.
+//!
+//! Oracle, for `recover_wal_segment_bytes`, `recover_filesystem_store` (read-only and writable),
+//! `doctor_filesystem_store`, `validate_filesystem_manifest`, `enable_runtime_wal`: a typed
+//! error / obstructed posture, or Ok whose committed-transaction list (by commit digest) is a
+//! prefix of the original list, and (host) observables equal to Twin(prefix). Never a panic.
+
+use std::path::Path;
 
 use serde::{Deserialize, Serialize};
+use warp_core::causal_wal::{
+    doctor_filesystem_store, recover_filesystem_store, recover_wal_segment_bytes, validate_filesystem_manifest,
+    RecoveryAccessMode, RecoveryScanReport, RecoveryTailPosture, WalDoctorPosture, WalSegmentId,
+};
 
+use super::c10::disk::{self, Tree};
+use super::c10::world::{self, WOp};
+use super::c10::{obs_of, produce_log, Produced};
 use crate::kernel::{Outcome, PropertySpec, Rng, RunCtx, Scenario, Tier};
+use crate::world::prog::Prog;
+use crate::world::rules::callbacks;
 
 pub const SPEC: PropertySpec = PropertySpec {
     id: "C11",
-    level: "exploration",
-    rule: "placeholder",
-    quick_runs: 1,
-    thorough_runs: 1,
-    real_components: &[],
-    stub_components: &[],
-    assumptions: &[],
-    fault_kinds: &[],
+    level: "fault_enumeration",
+    rule: "scenario = two generated crash-free workloads (log under test + donor log) + a list of damage plans, each applied to a fresh copy and pushed through six recovery entry points; non-trivial = at least one damage applied to a log with >= 1 committed transaction; distinct = hash of scenario",
+    quick_runs: 3_000,
+    thorough_runs: 30_000,
+    real_components: &[
+        "recover_wal_segment_bytes, recover_filesystem_store (read-only, writable), doctor_filesystem_store, validate_filesystem_manifest",
+        "TrustedRuntimeHost::enable_runtime_wal on the damaged directory (semantic re-validation of recovered payloads)",
+        "log production: TrustedRuntimeHost + FilesystemWalStore (C10 driver, all C10 checks active)",
+    ],
+    stub_components: &["application contract = data-driven interpreter rule"],
+    assumptions: &[
+        "the recovery entry points have no loops that are not bounded by the input length; a hang would stall the batch (no step hook exists inside them)",
+        "structural edits move whole, digest-valid records, so their L1 and L2 variants are byte-identical; L2 (recomputed outer digest) differs from L1 only for in-record damage",
+    ],
+    fault_kinds: &[
+        "fault.bit_flip.segment",
+        "fault.bit_flip.ledger",
+        "fault.bit_flip.manifest",
+        "fault.zero_range.8",
+        "fault.zero_range.64",
+        "fault.zero_range.512",
+        "fault.trunc_garbage",
+        "fault.payload_flip.l1",
+        "fault.payload_flip.l2",
+        "fault.kind_flip.l2",
+        "fault.rec_delete.l1",
+        "fault.rec_delete.l2",
+        "fault.rec_dup.l1",
+        "fault.rec_dup.l2",
+        "fault.rec_swap.l1",
+        "fault.rec_swap.l2",
+        "fault.tx_delete.l1",
+        "fault.tx_delete.l2",
+        "fault.tx_dup.l1",
+        "fault.tx_dup.l2",
+        "fault.tx_swap.l1",
+        "fault.tx_swap.l2",
+        "fault.transplant_rec.l1",
+        "fault.transplant_rec.l2",
+        "fault.transplant_tx.l1",
+        "fault.transplant_tx.l2",
+        "fault.ledger_subst",
+        "fault.manifest_subst",
+    ],
 };
+
+#[derive(Clone, Debug, Serialize, Deserialize, PartialEq, Eq)]
+pub enum Damage {
+    /// file: 0 segment, 1 ledger, 2 manifest.
+    BitFlip { file: u8, pos: u32, bit: u8 },
+    /// width: 8 / 64 / 512, aligned to its width.
+    ZeroRange { width: u16, pos: u32 },
+    TruncGarbage { at: u32, garbage: Vec<u8> },
+    /// Flip one bit inside the payload of record `idx`; level 2 recomputes the outer digest.
+    PayloadFlip { idx: u32, pos: u32, bit: u8, level: u8 },
+    /// Change the kind byte of record `idx` and recompute the outer digest.
+    KindFlip { idx: u32, to: u8 },
+    RecDelete { idx: u32, level: u8 },
+    RecDup { idx: u32, level: u8 },
+    RecSwap { idx: u32, level: u8 },
+    TxDelete { idx: u32, level: u8 },
+    TxDup { idx: u32, level: u8 },
+    TxSwap { idx: u32, level: u8 },
+    /// Record `src` of the donor log replaces (or is inserted before) record `dst`.
+    TransplantRec { dst: u32, src: u32, replace: bool, level: u8 },
+    /// mode 0: donor tx `src` replaces tx `dst`; 1: inserted before tx `dst`; 2: log = first `dst`
+    /// transactions of the original + donor tx `src`.
+    TransplantTx { dst: u32, src: u32, mode: u8, level: u8 },
+    LedgerSubst,
+    ManifestSubst,
+}
+
+impl Damage {
+    /// Byte-level damage (as opposed to moving whole, intact records around).
+    fn alters_record_bytes(&self) -> bool {
+        matches!(
+            self,
+            Damage::BitFlip { file: 0, .. } | Damage::ZeroRange { .. } | Damage::TruncGarbage { .. } | Damage::PayloadFlip { .. } | Damage::KindFlip { .. }
+        )
+    }
+    fn cross_log(&self) -> bool {
+        matches!(self, Damage::TransplantRec { .. } | Damage::TransplantTx { .. } | Damage::LedgerSubst | Damage::ManifestSubst)
+    }
+    fn name(&self) -> String {
+        match self {
+            Damage::BitFlip { file, .. } => format!("bit_flip.{}", ["segment", "ledger", "manifest"][usize::from(*file % 3)]),
+            Damage::ZeroRange { width, .. } => format!("zero_range.{width}"),
+            Damage::TruncGarbage { .. } => "trunc_garbage".to_owned(),
+            Damage::PayloadFlip { level, .. } => format!("payload_flip.l{level}"),
+            Damage::KindFlip { .. } => "kind_flip.l2".to_owned(),
+            Damage::RecDelete { level, .. } => format!("rec_delete.l{level}"),
+            Damage::RecDup { level, .. } => format!("rec_dup.l{level}"),
+            Damage::RecSwap { level, .. } => format!("rec_swap.l{level}"),
+            Damage::TxDelete { level, .. } => format!("tx_delete.l{level}"),
+            Damage::TxDup { level, .. } => format!("tx_dup.l{level}"),
+            Damage::TxSwap { level, .. } => format!("tx_swap.l{level}"),
+            Damage::TransplantRec { level, .. } => format!("transplant_rec.l{level}"),
+            Damage::TransplantTx { level, .. } => format!("transplant_tx.l{level}"),
+            Damage::LedgerSubst => "ledger_subst".to_owned(),
+            Damage::ManifestSubst => "manifest_subst".to_owned(),
+        }
+    }
+    /// Class stem for violations (level-free, so both levels shrink to one shape).
+    fn stem(&self) -> String {
+        let n = self.name();
+        n.split('.').next().unwrap_or("damage").to_owned()
+    }
+}
 
 #[derive(Clone, Debug, Serialize, Deserialize)]
 pub struct C11 {
-    pub placeholder: u8,
+    pub avoid: bool,
+    pub progs: Vec<Prog>,
+    pub ops: Vec<WOp>,
+    pub donor_progs: Vec<Prog>,
+    pub donor_ops: Vec<WOp>,
+    pub manifest: bool,
+    pub damages: Vec<Damage>,
+    /// Run the (more expensive) host-level reopen for every damage, not only the store-level APIs.
+    pub host_level: bool,
+    /// Thorough tier, small logs: additionally every single-bit flip of the segment (byte-level
+    /// and read-only filesystem recovery) and every record-level edit (all entry points).
+    #[serde(default)]
+    pub exhaustive: bool,
+}
+
+fn gen_level(rng: &mut Rng) -> u8 {
+    1 + rng.below(2) as u8
+}
+
+fn gen_damage(rng: &mut Rng, avoid: bool, manifest: bool) -> Damage {
+    loop {
+        let d = match rng.weighted(&[6, 4, 3, 6, 1, 3, 3, 3, 3, 3, 3, 4, 6, 1, 1]) {
+            0 => Damage::BitFlip {
+                file: match rng.below(10) {
+                    0 | 1 => 1,
+                    2 => 2,
+                    _ => 0,
+                },
+                pos: rng.next_u64() as u32,
+                bit: rng.below(8) as u8,
+            },
+            1 => Damage::ZeroRange { width: *rng.pick(&[8u16, 64, 512]), pos: rng.next_u64() as u32 },
+            2 => {
+                let n = rng.urange(0, 40);
+                let mut garbage = rng.bytes(n);
+                if rng.chance(1, 3) {
+                    let mut g = disk::RECORD_MAGIC.to_vec();
+                    g.push(rng.below(4) as u8);
+                    g.extend_from_slice(&(rng.below(64)).to_le_bytes());
+                    g.extend_from_slice(&garbage);
+                    garbage = g;
+                }
+                Damage::TruncGarbage { at: rng.next_u64() as u32, garbage }
+            }
+            3 => Damage::PayloadFlip { idx: rng.next_u64() as u32, pos: rng.next_u64() as u32, bit: rng.below(8) as u8, level: gen_level(rng) },
+            4 => Damage::KindFlip { idx: rng.next_u64() as u32, to: rng.below(4) as u8 },
+            5 => Damage::RecDelete { idx: rng.next_u64() as u32, level: gen_level(rng) },
+            6 => Damage::RecDup { idx: rng.next_u64() as u32, level: gen_level(rng) },
+            7 => Damage::RecSwap { idx: rng.next_u64() as u32, level: gen_level(rng) },
+            8 => Damage::TxDelete { idx: rng.next_u64() as u32, level: gen_level(rng) },
+            9 => Damage::TxDup { idx: rng.next_u64() as u32, level: gen_level(rng) },
+            10 => Damage::TxSwap { idx: rng.next_u64() as u32, level: gen_level(rng) },
+            11 => Damage::TransplantRec { dst: rng.next_u64() as u32, src: rng.next_u64() as u32, replace: rng.chance(1, 2), level: gen_level(rng) },
+            12 => Damage::TransplantTx { dst: rng.next_u64() as u32, src: rng.next_u64() as u32, mode: rng.below(3) as u8, level: gen_level(rng) },
+            13 => Damage::LedgerSubst,
+            _ => Damage::ManifestSubst,
+        };
+        if avoid && d.cross_log() {
+            continue;
+        }
+        if !manifest && matches!(d, Damage::ManifestSubst | Damage::BitFlip { file: 2, .. }) {
+            continue;
+        }
+        return d;
+    }
 }
 
 impl Scenario for C11 {
-    fn generate(_rng: &mut Rng, _tier: Tier, _avoid: bool) -> Self {
-        C11 { placeholder: 0 }
+    fn generate(rng: &mut Rng, tier: Tier, avoid: bool) -> Self {
+        let max_txs = 12;
+        let n_progs = rng.urange(1, 6);
+        let progs: Vec<Prog> = (0..n_progs).map(|i| world::gen_prog(rng, 1 + i as u32)).collect();
+        let exhaustive = tier == Tier::Thorough && rng.chance(1, 40);
+        let target = if exhaustive {
+            rng.urange(1, 2)
+        } else {
+            match rng.below(4) {
+                0 => rng.urange(1, 2),
+                1 | 2 => rng.urange(2, 6),
+                _ => rng.urange(4, max_txs),
+            }
+        };
+        let restarts = rng.chance(1, 3);
+        let ops = world::gen_workload(rng, n_progs, target, restarts);
+        let d_progs_n = rng.urange(1, 6);
+        // Donor programs carry other nonces: every donor transaction differs from every original one.
+        let donor_progs: Vec<Prog> = (0..d_progs_n).map(|i| world::gen_prog(rng, 1000 + i as u32)).collect();
+        // A donor with the same op shape aligns LSN ranges with the original (the interesting case).
+        let donor_ops = if rng.chance(1, 2) && d_progs_n >= n_progs { ops.clone() } else { world::gen_workload(rng, d_progs_n, target, false) };
+        let manifest = rng.chance(1, 3);
+        let n_damages = rng.urange(4, if tier == Tier::Thorough { 40 } else { 16 });
+        let damages = (0..n_damages).map(|_| gen_damage(rng, avoid, manifest)).collect();
+        C11 { avoid, progs, ops, donor_progs, donor_ops, manifest, damages, host_level: rng.chance(3, 4), exhaustive }
     }
-    fn execute(&self, _ctx: &mut RunCtx) -> Outcome {
-        Outcome::Ok
+
+    fn execute(&self, ctx: &mut RunCtx) -> Outcome {
+        match run(self, ctx) {
+            Ok(()) => Outcome::Ok,
+            Err(o) => o,
+        }
     }
+
+    fn shrink_candidates(&self) -> Vec<Self> {
+        let mut out = Vec::new();
+        for i in 0..self.damages.len() {
+            let mut c = self.clone();
+            c.damages.remove(i);
+            out.push(c);
+        }
+        if self.damages.len() > 1 {
+            for i in 0..self.damages.len() {
+                let mut c = self.clone();
+                c.damages = vec![self.damages[i].clone()];
+                out.push(c);
+            }
+        }
+        for i in (0..self.ops.len()).rev() {
+            let mut c = self.clone();
+            c.ops.remove(i);
+            out.push(c);
+        }
+        for i in (0..self.donor_ops.len()).rev() {
+            let mut c = self.clone();
+            c.donor_ops.remove(i);
+            out.push(c);
+        }
+        if let Some(last) = self.progs.len().checked_sub(1) {
+            let used = self.ops.iter().any(|o| matches!(o, WOp::Submit(p) | WOp::Stage(p) if *p == last));
+            if !used && last > 0 {
+                let mut c = self.clone();
+                c.progs.pop();
+                out.push(c);
+            }
+        }
+        if let Some(last) = self.donor_progs.len().checked_sub(1) {
+            let used = self.donor_ops.iter().any(|o| matches!(o, WOp::Submit(p) | WOp::Stage(p) if *p == last));
+            if !used && last > 0 {
+                let mut c = self.clone();
+                c.donor_progs.pop();
+                out.push(c);
+            }
+        }
+        if self.manifest {
+            let mut c = self.clone();
+            c.manifest = false;
+            out.push(c);
+        }
+        if self.exhaustive {
+            let mut c = self.clone();
+            c.exhaustive = false;
+            out.push(c);
+        }
+        for i in 0..self.progs.len() {
+            if self.progs[i].steps.len() > 1 {
+                let mut c = self.clone();
+                c.progs[i].steps.truncate(1);
+                out.push(c);
+            }
+        }
+        for i in 0..self.donor_progs.len() {
+            if self.donor_progs[i].steps.len() > 1 {
+                let mut c = self.clone();
+                c.donor_progs[i].steps.truncate(1);
+                out.push(c);
+            }
+        }
+        // Smaller indices / positions inside a damage.
+        for (i, d) in self.damages.iter().enumerate() {
+            for s in simpler_damage(d) {
+                let mut c = self.clone();
+                c.damages[i] = s;
+                out.push(c);
+            }
+        }
+        out
+    }
+}
+
+fn simpler_damage(d: &Damage) -> Vec<Damage> {
+    let mut v = Vec::new();
+    match d {
+        Damage::TransplantTx { dst, src, mode, level } => {
+            if *dst > 16 {
+                v.push(Damage::TransplantTx { dst: dst % 16, src: *src, mode: *mode, level: *level });
+            }
+            if *src > 16 {
+                v.push(Damage::TransplantTx { dst: *dst, src: src % 16, mode: *mode, level: *level });
+            }
+            if *dst > 0 && *dst <= 16 {
+                v.push(Damage::TransplantTx { dst: dst - 1, src: *src, mode: *mode, level: *level });
+            }
+            if *src > 0 && *src <= 16 {
+                v.push(Damage::TransplantTx { dst: *dst, src: src - 1, mode: *mode, level: *level });
+            }
+            if *level != 1 {
+                v.push(Damage::TransplantTx { dst: *dst, src: *src, mode: *mode, level: 1 });
+            }
+        }
+        Damage::TransplantRec { dst, src, replace, level } => {
+            if *dst > 64 {
+                v.push(Damage::TransplantRec { dst: dst % 64, src: *src, replace: *replace, level: *level });
+            }
+            if *src > 64 {
+                v.push(Damage::TransplantRec { dst: *dst, src: src % 64, replace: *replace, level: *level });
+            }
+            if *level != 1 {
+                v.push(Damage::TransplantRec { dst: *dst, src: *src, replace: *replace, level: 1 });
+            }
+        }
+        Damage::RecDelete { idx, level } if *idx >= 64 => v.push(Damage::RecDelete { idx: idx % 64, level: *level }),
+        Damage::RecDup { idx, level } if *idx >= 64 => v.push(Damage::RecDup { idx: idx % 64, level: *level }),
+        Damage::RecSwap { idx, level } if *idx >= 64 => v.push(Damage::RecSwap { idx: idx % 64, level: *level }),
+        Damage::TxDelete { idx, level } if *idx >= 16 => v.push(Damage::TxDelete { idx: idx % 16, level: *level }),
+        Damage::TxDup { idx, level } if *idx >= 16 => v.push(Damage::TxDup { idx: idx % 16, level: *level }),
+        Damage::TxSwap { idx, level } if *idx >= 16 => v.push(Damage::TxSwap { idx: idx % 16, level: *level }),
+        Damage::RecDelete { idx, level } if *idx > 0 => v.push(Damage::RecDelete { idx: idx - 1, level: *level }),
+        Damage::RecDup { idx, level } if *idx > 0 => v.push(Damage::RecDup { idx: idx - 1, level: *level }),
+        Damage::TxDelete { idx, level } if *idx > 0 => v.push(Damage::TxDelete { idx: idx - 1, level: *level }),
+        Damage::TxSwap { idx, level } if *idx > 0 => v.push(Damage::TxSwap { idx: idx - 1, level: *level }),
+        _ => {}
+    }
+    v
+}
+
+macro_rules! bail {
+    ($class:expr, $($fmt:tt)*) => {
+        return Err(Outcome::violation($class, format!($($fmt)*)))
+    };
+}
+
+type Res<T> = Result<T, Outcome>;
+
+/// Parsed view of a produced log.
+struct Log<'a> {
+    p: &'a Produced,
+    parsed: disk::Parsed,
+    txs: Vec<disk::TxGroup>,
+}
+
+impl<'a> Log<'a> {
+    fn new(p: &'a Produced) -> Self {
+        let parsed = disk::parse(&p.segment);
+        let txs = disk::transactions(&p.segment, &parsed);
+        Log { p, parsed, txs }
+    }
+    fn rec_bytes(&self, i: usize) -> &[u8] {
+        self.parsed.recs[i].bytes(&self.p.segment)
+    }
+    fn tx_bytes(&self, i: usize) -> Vec<u8> {
+        let mut v = Vec::new();
+        for r in &self.txs[i].recs {
+            v.extend_from_slice(self.rec_bytes(*r));
+        }
+        v
+    }
+    /// Byte range covered by transaction i when its records are contiguous (always, for logs
+    /// written by the host without recovery rewrites).
+    fn tx_range(&self, i: usize) -> (usize, usize) {
+        let recs = &self.txs[i].recs;
+        let first = recs.iter().map(|r| self.parsed.recs[*r].off).min().unwrap_or(0);
+        let last = recs.iter().map(|r| self.parsed.recs[*r].end).max().unwrap_or(0);
+        (first, last)
+    }
+}
+
+/// Re-seal a record: recompute the outer digest from kind + payload (L2).
+fn reseal(rec: &[u8]) -> Vec<u8> {
+    if rec.len() < disk::RECORD_HEADER_LEN + disk::RECORD_DIGEST_LEN {
+        return rec.to_vec();
+    }
+    let kind = rec[8];
+    let payload = &rec[disk::RECORD_HEADER_LEN..rec.len() - disk::RECORD_DIGEST_LEN];
+    disk::encode_record(kind, payload)
+}
+
+fn maybe_reseal(rec: &[u8], level: u8) -> Vec<u8> {
+    if level >= 2 {
+        reseal(rec)
+    } else {
+        rec.to_vec()
+    }
+}
+
+/// Apply one damage plan to a copy of the original tree. `None` = not applicable to this log.
+fn apply(d: &Damage, a: &Log<'_>, b: &Log<'_>) -> Option<Tree> {
+    let mut tree = a.p.tree.clone();
+    let seg = a.p.segment.clone();
+    let nrec = a.parsed.recs.len();
+    let ntx = a.txs.len();
+    if d.cross_log() && ntx == 0 {
+        return None;
+    }
+    let set_seg = |tree: &mut Tree, bytes: Vec<u8>| {
+        tree.insert(disk::SEGMENT_REL.to_owned(), bytes);
+    };
+    match d {
+        Damage::BitFlip { file, pos, bit } => {
+            let rel = [disk::SEGMENT_REL, disk::LEDGER_REL, disk::MANIFEST_REL][usize::from(*file % 3)];
+            let b = tree.get_mut(rel)?;
+            if b.is_empty() {
+                return None;
+            }
+            let i = *pos as usize % b.len();
+            b[i] ^= 1 << (bit % 8);
+        }
+        Damage::ZeroRange { width, pos } => {
+            let w = usize::from(*width).max(1);
+            if seg.is_empty() {
+                return None;
+            }
+            let start = (*pos as usize % seg.len()) / w * w;
+            let end = (start + w).min(seg.len());
+            let mut s = seg;
+            for x in &mut s[start..end] {
+                *x = 0;
+            }
+            set_seg(&mut tree, s);
+        }
+        Damage::TruncGarbage { at, garbage } => {
+            let cut = *at as usize % (seg.len() + 1);
+            let mut s = seg[..cut].to_vec();
+            s.extend_from_slice(garbage);
+            set_seg(&mut tree, s);
+        }
+        Damage::PayloadFlip { idx, pos, bit, level } => {
+            if nrec == 0 {
+                return None;
+            }
+            let r = &a.parsed.recs[*idx as usize % nrec];
+            if r.payload_len == 0 {
+                return None;
+            }
+            let mut rec = r.bytes(&seg).to_vec();
+            let i = disk::RECORD_HEADER_LEN + *pos as usize % r.payload_len;
+            rec[i] ^= 1 << (bit % 8);
+            let rec = maybe_reseal(&rec, *level);
+            let mut s = seg[..r.off].to_vec();
+            s.extend_from_slice(&rec);
+            s.extend_from_slice(&seg[r.end..]);
+            set_seg(&mut tree, s);
+        }
+        Damage::KindFlip { idx, to } => {
+            if nrec == 0 {
+                return None;
+            }
+            let r = &a.parsed.recs[*idx as usize % nrec];
+            let mut rec = r.bytes(&seg).to_vec();
+            if rec[8] == *to {
+                return None;
+            }
+            rec[8] = *to;
+            let rec = reseal(&rec);
+            let mut s = seg[..r.off].to_vec();
+            s.extend_from_slice(&rec);
+            s.extend_from_slice(&seg[r.end..]);
+            set_seg(&mut tree, s);
+        }
+        Damage::RecDelete { idx, .. } => {
+            if nrec == 0 {
+                return None;
+            }
+            let r = &a.parsed.recs[*idx as usize % nrec];
+            let mut s = seg[..r.off].to_vec();
+            s.extend_from_slice(&seg[r.end..]);
+            set_seg(&mut tree, s);
+        }
+        Damage::RecDup { idx, level } => {
+            if nrec == 0 {
+                return None;
+            }
+            let r = &a.parsed.recs[*idx as usize % nrec];
+            let mut s = seg[..r.end].to_vec();
+            s.extend_from_slice(&maybe_reseal(r.bytes(&seg), *level));
+            s.extend_from_slice(&seg[r.end..]);
+            set_seg(&mut tree, s);
+        }
+        Damage::RecSwap { idx, level } => {
+            if nrec < 2 {
+                return None;
+            }
+            let i = *idx as usize % (nrec - 1);
+            let (r1, r2) = (&a.parsed.recs[i], &a.parsed.recs[i + 1]);
+            let mut s = seg[..r1.off].to_vec();
+            s.extend_from_slice(&maybe_reseal(r2.bytes(&seg), *level));
+            s.extend_from_slice(&maybe_reseal(r1.bytes(&seg), *level));
+            s.extend_from_slice(&seg[r2.end..]);
+            set_seg(&mut tree, s);
+        }
+        Damage::TxDelete { idx, .. } => {
+            if ntx == 0 {
+                return None;
+            }
+            let (from, to) = a.tx_range(*idx as usize % ntx);
+            let mut s = seg[..from].to_vec();
+            s.extend_from_slice(&seg[to..]);
+            set_seg(&mut tree, s);
+        }
+        Damage::TxDup { idx, .. } => {
+            if ntx == 0 {
+                return None;
+            }
+            let i = *idx as usize % ntx;
+            let (_, to) = a.tx_range(i);
+            let mut s = seg[..to].to_vec();
+            s.extend_from_slice(&a.tx_bytes(i));
+            s.extend_from_slice(&seg[to..]);
+            set_seg(&mut tree, s);
+        }
+        Damage::TxSwap { idx, .. } => {
+            if ntx < 2 {
+                return None;
+            }
+            let i = *idx as usize % (ntx - 1);
+            let (f1, _) = a.tx_range(i);
+            let (_, t2) = a.tx_range(i + 1);
+            let mut s = seg[..f1].to_vec();
+            s.extend_from_slice(&a.tx_bytes(i + 1));
+            s.extend_from_slice(&a.tx_bytes(i));
+            s.extend_from_slice(&seg[t2..]);
+            set_seg(&mut tree, s);
+        }
+        Damage::TransplantRec { dst, src, replace, level } => {
+            let bn = b.parsed.recs.len();
+            if nrec == 0 || bn == 0 {
+                return None;
+            }
+            let r = &a.parsed.recs[*dst as usize % nrec];
+            let donor = maybe_reseal(b.rec_bytes(*src as usize % bn), *level);
+            if *replace && donor == r.bytes(&seg) {
+                return None;
+            }
+            let mut s = seg[..r.off].to_vec();
+            s.extend_from_slice(&donor);
+            s.extend_from_slice(&seg[if *replace { r.end } else { r.off }..]);
+            set_seg(&mut tree, s);
+        }
+        Damage::TransplantTx { dst, src, mode, .. } => {
+            let bn = b.txs.len();
+            if bn == 0 {
+                return None;
+            }
+            let donor = b.tx_bytes(*src as usize % bn);
+            match mode % 3 {
+                0 => {
+                    if ntx == 0 {
+                        return None;
+                    }
+                    let (from, to) = a.tx_range(*dst as usize % ntx);
+                    let mut s = seg[..from].to_vec();
+                    s.extend_from_slice(&donor);
+                    s.extend_from_slice(&seg[to..]);
+                    set_seg(&mut tree, s);
+                }
+                1 => {
+                    if ntx == 0 {
+                        return None;
+                    }
+                    let (from, _) = a.tx_range(*dst as usize % ntx);
+                    let mut s = seg[..from].to_vec();
+                    s.extend_from_slice(&donor);
+                    s.extend_from_slice(&seg[from..]);
+                    set_seg(&mut tree, s);
+                }
+                _ => {
+                    // Keep at least one original transaction: a donor transaction on an empty
+                    // log is a degenerate splice.
+                    if ntx == 0 {
+                        return None;
+                    }
+                    let keep = 1 + *dst as usize % ntx;
+                    let cut = a.tx_range(keep - 1).1;
+                    let mut s = seg[..cut].to_vec();
+                    s.extend_from_slice(&donor);
+                    set_seg(&mut tree, s);
+                }
+            }
+        }
+        Damage::LedgerSubst => {
+            let l = b.p.tree.get(disk::LEDGER_REL)?.clone();
+            if Some(&l) == tree.get(disk::LEDGER_REL) {
+                return None;
+            }
+            tree.insert(disk::LEDGER_REL.to_owned(), l);
+        }
+        Damage::ManifestSubst => {
+            let m = b.p.tree.get(disk::MANIFEST_REL)?.clone();
+            if Some(&m) == tree.get(disk::MANIFEST_REL) {
+                return None;
+            }
+            tree.insert(disk::MANIFEST_REL.to_owned(), m);
+        }
+    }
+    if tree == a.p.tree {
+        return None;
+    }
+    // A segment that is byte-for-byte a prefix of the donor log IS a valid log (the donor's): no
+    // reader could tell, so it is not damage.
+    if d.cross_log() {
+        if let Some(sg) = tree.get(disk::SEGMENT_REL) {
+            if b.p.segment.starts_with(sg) {
+                return None;
+            }
+        }
+    }
+    Some(tree)
+}
+
+struct Case<'a> {
+    d: &'a Damage,
+    orig: Vec<disk::H>,
+    n_orig: usize,
+    /// First store-level acceptance of a non-prefix history (reported unless the host-level
+    /// reopen accepts the damaged log as well, which is reported instead).
+    store_level: std::cell::RefCell<Option<Outcome>>,
+    accepted_by: std::cell::RefCell<Vec<String>>,
+    intact: bool,
+    segment_damaged: bool,
+}
+
+impl Case<'_> {
+    fn non_prefix_class(&self, host: bool) -> String {
+        let stem = if matches!(self.d, Damage::TransplantTx { .. }) {
+            "spliced_transaction".to_owned()
+        } else if matches!(self.d, Damage::TransplantRec { .. }) {
+            "spliced_record".to_owned()
+        } else {
+            self.d.stem()
+        };
+        if host {
+            format!("non_prefix_history_accepted:{stem}_host")
+        } else {
+            format!("non_prefix_history_accepted:{stem}")
+        }
+    }
+
+    /// Judge a successful scan: the committed list must be a prefix of the original list.
+    fn judge_scan(&self, api: &str, report: &RecoveryScanReport, ctx: &mut RunCtx) -> Res<usize> {
+        let got: Vec<disk::H> = report.transactions.iter().map(|t| t.commit.commit_digest).collect();
+        self.judge_list(api, &got, matches!(report.tail_posture, RecoveryTailPosture::Clean), ctx)
+    }
+
+    fn judge_list(&self, api: &str, got: &[disk::H], clean: bool, ctx: &mut RunCtx) -> Res<usize> {
+        let is_prefix = got.len() <= self.orig.len() && got.iter().zip(&self.orig).all(|(a, b)| a == b);
+        if !is_prefix {
+            self.accepted_by.borrow_mut().push(api.to_owned());
+            if self.store_level.borrow().is_some() {
+                return Ok(got.len());
+            }
+            let o = self.non_prefix_outcome(api, got);
+            *self.store_level.borrow_mut() = Some(o);
+            return Ok(got.len());
+        }
+        if self.intact {
+            return Ok(got.len());
+        }
+        if got.len() < self.n_orig || !clean {
+            ctx.hit("reach.damage_reclassified_as_torn_tail");
+        } else if self.segment_damaged {
+            if self.d.alters_record_bytes() {
+                // Flipped / zeroed / overwritten bytes of committed content, accepted as the full,
+                // clean history: some integrity check does not cover those bytes.
+                bail!(
+                    format!("damage_unnoticed:{}", self.d.stem()),
+                    "{api} returned the full history with a clean tail although committed bytes were altered: {:?}",
+                    self.d
+                );
+            }
+            // The reader normalised the damage away (physical record order is not history).
+            ctx.hit(&format!("reach.segment_damage_accepted_full_history.{}", self.d.stem()));
+        } else {
+            ctx.hit("reach.non_segment_damage_ignored_by_segment_reader");
+        }
+        Ok(got.len())
+    }
+
+    fn non_prefix_outcome(&self, api: &str, got: &[disk::H]) -> Outcome {
+        {
+            let foreign = got.iter().filter(|g| !self.orig.contains(g)).count();
+            let mut sorted_got = got.to_vec();
+            sorted_got.sort_unstable();
+            let mut sorted_prefix: Vec<disk::H> = self.orig.iter().take(got.len()).copied().collect();
+            sorted_prefix.sort_unstable();
+            if foreign == 0 && sorted_got == sorted_prefix {
+                return Outcome::violation(
+                    format!("reordered_history_accepted:{}", self.d.stem()),
+                    format!(
+                        "{api} returned Ok with the {} committed transactions in a different order than they were committed, damage {:?}",
+                        got.len(),
+                        self.d
+                    ),
+                );
+            }
+            Outcome::violation(
+                self.non_prefix_class(false),
+                format!(
+                    "{api} returned Ok with {} transactions after damage {:?}: not a prefix of the {} original ones ({} unknown commit digests, first divergence at {})",
+                    got.len(),
+                    self.d,
+                    self.orig.len(),
+                    foreign,
+                    got.iter().zip(&self.orig).position(|(a, b)| a != b).unwrap_or(self.orig.len().min(got.len()))
+                ),
+            )
+        }
+    }
+}
+
+fn run(sc: &C11, ctx: &mut RunCtx) -> Res<()> {
+    let base = ctx.scratch_dir();
+    let a = produce_log(&sc.progs, &sc.ops, ctx, base.join("a"), sc.manifest)?;
+    let b = produce_log(&sc.donor_progs, &sc.donor_ops, ctx, base.join("b"), sc.manifest)?;
+    ctx.count("reach.log_bytes", a.segment.len() as u64);
+    ctx.hit(&format!("reach.log_txs.{}", a.commits.len().min(12)));
+    let la = Log::new(&a);
+    let lb = Log::new(&b);
+    let orig: Vec<disk::H> = a.commits.iter().map(|c| c.digest).collect();
+    // Sanity of the harness's own digest formula: re-sealing an intact record is the identity.
+    for i in 0..la.parsed.recs.len() {
+        if reseal(la.rec_bytes(i)) != la.rec_bytes(i) {
+            bail!("harness:outer_digest_formula", "record {i} does not re-seal to itself");
+        }
+    }
+    // The undamaged log must pass everything (otherwise nothing below means anything).
+    let intact = Case { d: &Damage::LedgerSubst, orig: orig.clone(), n_orig: orig.len(), store_level: Default::default(), accepted_by: Default::default(), intact: true, segment_damaged: false };
+    let t0 = check_tree(&a.tree, &a, &intact, &base, true, ctx, true)?;
+    if t0 != orig.len() {
+        bail!("harness:intact_log_not_full", "undamaged log recovered {t0} of {} transactions", orig.len());
+    }
+    let mut applied = 0u64;
+    for (i, d) in sc.damages.iter().enumerate() {
+        if sc.avoid && known_shape(d, &la) {
+            ctx.hit("reach.avoided_known_shape");
+            continue;
+        }
+        let Some(tree) = apply(d, &la, &lb) else {
+            ctx.hit("reach.damage_not_applicable");
+            continue;
+        };
+        applied += 1;
+        if applied == 1 && !orig.is_empty() {
+            let sig = serde_json::to_vec(sc).unwrap_or_default();
+            ctx.nontrivial(&sig);
+        }
+        ctx.hit(&format!("fault.{}", d.name()));
+        ctx.trace_str(&format!("damage{i}"));
+        let segment_damaged = tree.get(disk::SEGMENT_REL) != Some(&a.segment);
+        let case = Case { d, orig: orig.clone(), n_orig: orig.len(), store_level: Default::default(), accepted_by: Default::default(), intact: false, segment_damaged };
+        check_tree(&tree, &a, &case, &base, sc.host_level, ctx, false)?;
+    }
+    if sc.exhaustive {
+        applied += exhaustive(sc, &la, &lb, &a, &orig, &base, ctx)?;
+    }
+    ctx.count("time.ops", applied);
+    Ok(())
+}
+
+/// Shapes the unchanged tree is known to accept (DESIGN §9 item 2 and its same-log variants:
+/// nothing links a transaction to its predecessor on read). Avoidance mode skips them.
+fn known_shape(d: &Damage, a: &Log<'_>) -> bool {
+    let nrec = a.parsed.recs.len();
+    let ntx = a.txs.len();
+    let is_commit = |idx: u32| nrec > 0 && a.parsed.recs[idx as usize % nrec].kind == disk::KIND_COMMIT;
+    let last_commit = a.parsed.recs.iter().rposition(|r| r.kind == disk::KIND_COMMIT);
+    match d {
+        _ if d.cross_log() => true,
+        Damage::TxSwap { .. } => true,
+        Damage::TxDelete { idx, .. } => ntx > 0 && (*idx as usize % ntx) != ntx - 1,
+        Damage::RecDelete { idx, .. } => is_commit(*idx) && Some(*idx as usize % nrec.max(1)) != last_commit,
+        Damage::RecDup { idx, .. } => is_commit(*idx),
+        _ => false,
+    }
+}
+
+/// Every single-bit flip (light check) and every record-level edit (full check) of a small log.
+fn exhaustive(sc: &C11, la: &Log<'_>, lb: &Log<'_>, a: &Produced, orig: &[disk::H], base: &Path, ctx: &mut RunCtx) -> Res<u64> {
+    let mut n = 0u64;
+    ctx.hit("reach.exhaustive_log");
+    let mut plans: Vec<(Damage, bool)> = Vec::new();
+    if a.segment.len() <= 8 * 1024 {
+        for pos in 0..a.segment.len() {
+            for bit in 0..8u8 {
+                plans.push((Damage::BitFlip { file: 0, pos: pos as u32, bit }, true));
+            }
+        }
+    }
+    let nrec = la.parsed.recs.len() as u32;
+    let ntx = la.txs.len() as u32;
+    for level in 1..=2u8 {
+        for idx in 0..nrec {
+            plans.push((Damage::RecDelete { idx, level }, false));
+            plans.push((Damage::RecDup { idx, level }, false));
+            plans.push((Damage::RecSwap { idx, level }, false));
+            plans.push((Damage::PayloadFlip { idx, pos: idx.wrapping_mul(7919), bit: (idx % 8) as u8, level }, false));
+            for src in 0..lb.parsed.recs.len() as u32 {
+                plans.push((Damage::TransplantRec { dst: idx, src, replace: true, level }, false));
+            }
+        }
+        for idx in 0..ntx {
+            plans.push((Damage::TxDelete { idx, level }, false));
+            plans.push((Damage::TxDup { idx, level }, false));
+            plans.push((Damage::TxSwap { idx, level }, false));
+            for src in 0..lb.txs.len() as u32 {
+                for mode in 0..3u8 {
+                    plans.push((Damage::TransplantTx { dst: idx, src, mode, level }, false));
+                }
+            }
+        }
+    }
+    for idx in 0..nrec {
+        for to in 0..4u8 {
+            plans.push((Damage::KindFlip { idx, to }, false));
+        }
+    }
+    for (d, light) in &plans {
+        if sc.avoid && known_shape(d, la) {
+            continue;
+        }
+        let Some(tree) = apply(d, la, lb) else { continue };
+        n += 1;
+        ctx.hit(&format!("fault.{}", d.name()));
+        let segment_damaged = tree.get(disk::SEGMENT_REL) != Some(&a.segment);
+        let case = Case { d, orig: orig.to_vec(), n_orig: orig.len(), store_level: Default::default(), accepted_by: Default::default(), intact: false, segment_damaged };
+        if *light {
+            check_light(&tree, &case, base, ctx)?;
+        } else {
+            check_tree(&tree, a, &case, base, true, ctx, false)?;
+        }
+    }
+    Ok(n)
+}
+
+/// Byte-level and read-only filesystem recovery only (used for the exhaustive bit sweep).
+fn check_light(tree: &Tree, case: &Case<'_>, base: &Path, ctx: &mut RunCtx) -> Res<()> {
+    let seg: Vec<u8> = tree.get(disk::SEGMENT_REL).cloned().unwrap_or_default();
+    match crate::kernel::catch(|| recover_wal_segment_bytes(WalSegmentId::from_raw(1), &seg, RecoveryAccessMode::ReadOnly)) {
+        Err(m) => bail!("panic:recover_wal_segment_bytes", "{:?}: {m}", case.d),
+        Ok(Err(_)) => ctx.hit("reach.bitsweep_rejected"),
+        Ok(Ok(r)) => {
+            case.judge_scan("recover_wal_segment_bytes(read-only)", &r.report, ctx)?;
+        }
+    }
+    let dir = base.join("case");
+    if std::fs::write(dir.join(disk::SEGMENT_REL), &seg).is_err() {
+        if let Err(e) = disk::write_tree(&dir, tree) {
+            bail!("harness:case_dir", "{e}");
+        }
+    }
+    match crate::kernel::catch(|| recover_filesystem_store(&dir, RecoveryAccessMode::ReadOnly)) {
+        Err(m) => bail!("panic:recover_filesystem_store", "{:?}: {m}", case.d),
+        Ok(Err(_)) => {}
+        Ok(Ok(r)) => {
+            case.judge_scan("recover_filesystem_store(read-only)", &r, ctx)?;
+        }
+    }
+    if let Some(o) = case.store_level.borrow_mut().take() {
+        return Err(o);
+    }
+    Ok(())
+}
+
+fn err_word(e: &str) -> String {
+    e.chars().take_while(|c| c.is_ascii_alphanumeric()).collect()
+}
+
+/// Push one (damaged) tree through all recovery entry points. Returns the number of
+/// transactions the read-only filesystem recovery accepted (0 on rejection).
+fn check_tree(tree: &Tree, a: &Produced, case: &Case<'_>, base: &Path, host_level: bool, ctx: &mut RunCtx, intact: bool) -> Res<usize> {
+    let seg: Vec<u8> = tree.get(disk::SEGMENT_REL).cloned().unwrap_or_default();
+    let seg_id = WalSegmentId::from_raw(1);
+    // 1. bytes, both modes
+    for (mode, name) in [(RecoveryAccessMode::ReadOnly, "recover_wal_segment_bytes(read-only)"), (RecoveryAccessMode::Writable, "recover_wal_segment_bytes(writable)")] {
+        match crate::kernel::catch(|| recover_wal_segment_bytes(seg_id, &seg, mode)) {
+            Err(m) => bail!("panic:recover_wal_segment_bytes", "{:?}: {m}", case.d),
+            Ok(Err(e)) => {
+                ctx.hit(&format!("reach.rejected.{}", err_word(&format!("{e:?}"))));
+            }
+            Ok(Ok(r)) => {
+                case.judge_scan(name, &r.report, ctx)?;
+            }
+        }
+    }
+    // 2. filesystem read-only
+    let dir = base.join("case");
+    if let Err(e) = disk::write_tree(&dir, tree) {
+        bail!("harness:case_dir", "{e}");
+    }
+    let mut ro_count = None;
+    match crate::kernel::catch(|| recover_filesystem_store(&dir, RecoveryAccessMode::ReadOnly)) {
+        Err(m) => bail!("panic:recover_filesystem_store", "{:?}: {m}", case.d),
+        Ok(Err(_)) => {
+            ctx.hit("reach.fs_read_only_rejected");
+        }
+        Ok(Ok(r)) => {
+            ro_count = Some((case.judge_scan("recover_filesystem_store(read-only)", &r, ctx)?, r.last_committed_lsn()));
+        }
+    }
+    if disk::read_tree(&dir) != *tree {
+        bail!("read_only_recovery_wrote", "recover_filesystem_store(ReadOnly) changed the directory");
+    }
+    // 3. doctor
+    match crate::kernel::catch(|| doctor_filesystem_store(&dir)) {
+        Err(m) => bail!("panic:doctor_filesystem_store", "{:?}: {m}", case.d),
+        Ok(Err(e)) => bail!("doctor_returned_error", "{e:?}"),
+        Ok(Ok(rep)) => {
+            let obstructed = matches!(rep.posture, WalDoctorPosture::Obstructed);
+            match (&ro_count, obstructed) {
+                (None, false) => bail!("doctor_recoverable_on_rejected_log", "doctor says {:?} but read-only recovery rejects the log", rep.posture),
+                (Some(_), true) => bail!("doctor_obstructed_on_recoverable_log", "doctor obstructed although read-only recovery succeeds"),
+                (Some((n, last)), false) => {
+                    if rep.recovery_certificate.committed_transactions_replayed != *n as u64 || rep.recovery_certificate.last_lsn != *last {
+                        bail!("doctor_disagrees_with_recovery", "doctor certificate {:?} vs {n} transactions", rep.recovery_certificate);
+                    }
+                }
+                (None, true) => {}
+            }
+        }
+    }
+    // 4. manifest
+    if tree.contains_key(disk::MANIFEST_REL) {
+        match crate::kernel::catch(|| validate_filesystem_manifest(&dir)) {
+            Err(m) => bail!("panic:validate_filesystem_manifest", "{:?}: {m}", case.d),
+            Ok(Err(_)) => {
+                ctx.hit("reach.manifest_rejected");
+                if intact {
+                    bail!("harness:intact_manifest_rejected", "the undamaged manifest does not validate");
+                }
+            }
+            Ok(Ok(rep)) => {
+                // Ok = the manifest agrees with the segments: it must then name the end of a prefix.
+                let pos = rep.last_commit_digest.map(|d| case.orig.iter().position(|o| *o == d));
+                if let Some(None) = pos {
+                    bail!(case.non_prefix_class(false), "validate_filesystem_manifest accepted a last commit that was never committed to this log ({:?})", case.d);
+                }
+                // The manifest check compares commit markers only; whether the frames behind them
+                // still verify is the recovery entry points' business (counted, not demanded).
+                let named = pos.flatten().map_or(0, |p| p + 1);
+                if ro_count.map(|x| x.0) != Some(named) {
+                    ctx.hit("reach.manifest_ok_while_recovery_differs");
+                }
+                if !intact {
+                    ctx.hit("reach.manifest_still_valid_after_damage");
+                    if matches!(case.d, Damage::BitFlip { file: 2, .. }) {
+                        // The manifest carries no checksum; its manifest_digest field is not
+                        // compared with anything by validate_filesystem_manifest.
+                        ctx.hit("reach.manifest_flip_unnoticed");
+                    }
+                }
+            }
+        }
+    }
+    // 5. filesystem writable (mutates the directory)
+    match crate::kernel::catch(|| recover_filesystem_store(&dir, RecoveryAccessMode::Writable)) {
+        Err(m) => bail!("panic:recover_filesystem_store_writable", "{:?}: {m}", case.d),
+        Ok(Err(_)) => {
+            if ro_count.is_some() {
+                bail!("writable_rejects_what_read_only_accepts", "{:?}", case.d);
+            }
+        }
+        Ok(Ok(r)) => {
+            let n = case.judge_scan("recover_filesystem_store(writable)", &r, ctx)?;
+            if ro_count.map(|x| x.0) != Some(n) {
+                bail!("writable_and_read_only_disagree", "read-only {:?} writable {n}", ro_count.map(|x| x.0));
+            }
+            // What the repair left on disk is again a prefix (harness parser).
+            let after = std::fs::read(dir.join(disk::SEGMENT_REL)).unwrap_or_default();
+            let (commits, parsed) = disk::commits_in(&after);
+            let got: Vec<disk::H> = commits.iter().map(|c| c.digest).collect();
+            let stashed = case.store_level.borrow().is_some();
+            if !stashed && (got.len() != n || !got.iter().zip(&case.orig).all(|(x, y)| x == y) || !matches!(parsed.tail, disk::Tail::Clean)) {
+                bail!("repair_left_wrong_log", "after writable recovery the segment holds {} commits (tail {:?}), report says {n}", got.len(), parsed.tail);
+            }
+        }
+    }
+    // 6. host
+    if host_level {
+        if let Err(e) = disk::write_tree(&dir, tree) {
+            bail!("harness:case_dir", "{e}");
+        }
+        let mut host = match world::fresh_host() {
+            Ok(h) => h,
+            Err(e) => bail!("harness:fresh_host", "{e}"),
+        };
+        let cb0 = callbacks();
+        match crate::kernel::catch(|| host.enable_runtime_wal(world::wal_config(&dir))) {
+            Err(m) => bail!("panic:enable_runtime_wal", "{:?}: {m}", case.d),
+            Ok(Err(e)) => {
+                ctx.hit("reach.host_rejected");
+                if intact {
+                    bail!("harness:intact_log_rejected_by_host", "{e:?}");
+                }
+            }
+            Ok(Ok(())) => {
+                if callbacks() != cb0 {
+                    bail!("recovery_ran_callback", "{:?}", case.d);
+                }
+                // The history the host claims to have recovered (its own reader's order; the physical
+                // record order in the file is not history).
+                let got: Vec<disk::H> = host.runtime_wal().map(|w| w.commits().iter().map(|c| c.commit_digest).collect()).unwrap_or_default();
+                let is_prefix = got.len() <= case.orig.len() && got.iter().zip(&case.orig).all(|(x, y)| x == y);
+                if !is_prefix {
+                    let mut sg = got.clone();
+                    sg.sort_unstable();
+                    let mut sp: Vec<disk::H> = case.orig.iter().take(got.len()).copied().collect();
+                    sp.sort_unstable();
+                    let class = if sg == sp { format!("reordered_history_accepted:{}_host", case.d.stem()) } else { case.non_prefix_class(true) };
+                    let cert = host.runtime_wal().and_then(|w| w.recover_read_only().ok()).map(|r| r.certificate.committed_transactions_replayed);
+                    bail!(
+                        class,
+                        "enable_runtime_wal accepted a log whose {} committed transactions are not a prefix of the {} original ones (certificate: {:?} transactions replayed), damage {:?}; store-level acceptance by: {:?}",
+                        got.len(),
+                        case.orig.len(),
+                        cert,
+                        case.d,
+                        case.accepted_by.borrow()
+                    );
+                }
+                let t = got.len();
+                let o = obs_of(&mut host, &a.sub_ids, "damaged")?;
+                let d = o.diff(&a.twin_obs[t]);
+                if let Some(first) = d.first() {
+                    let key = first.split(':').next().unwrap_or("?").to_owned();
+                    bail!(
+                        format!("host_differs_from_twin_prefix:{}:{key}", case.d.stem()),
+                        "host opened the damaged log ({:?}) as {t} transactions but differs from Twin({t}):\n{}",
+                        case.d,
+                        d.join("\n")
+                    );
+                }
+                ctx.hit("reach.host_accepted_prefix");
+                if !intact {
+                    if matches!(case.d, Damage::BitFlip { file: 1, .. }) {
+                        bail!("damage_unnoticed:ledger_flip_host", "enable_runtime_wal accepted a writer-epoch ledger with a flipped bit: {:?}", case.d);
+                    }
+                    ctx.hit(&format!("reach.host_accepted_after.{}", case.d.stem()));
+                }
+                ctx.trace(&o.digest());
+            }
+        }
+        drop(host);
+    }
+    if let Some(o) = case.store_level.borrow_mut().take() {
+        return Err(match o {
+            Outcome::Violation { class, detail } => {
+                Outcome::violation(class, format!("{detail}; accepted by: {:?}; host-level reopen: {}", case.accepted_by.borrow(), if host_level { "rejected" } else { "not run" }))
+            }
+            other => other,
+        });
+    }
+    Ok(ro_count.map_or(0, |x| x.0))
 }
